@@ -15,12 +15,15 @@ import (
 	"fmt"
 	"io"
 	"math"
+	"net/http"
+	"net/url"
 	"sort"
 	"strconv"
 	"strings"
 	"sync"
 	"unicode/utf8"
 
+	"github.com/renbou/grpcbridge/bridgedesc"
 	"github.com/renbou/grpcbridge/transcoding"
 	"google.golang.org/protobuf/encoding/protojson"
 	"google.golang.org/protobuf/proto"
@@ -361,6 +364,74 @@ func setField(msg protoreflect.Message, fd protoreflect.FieldDescriptor, f strin
 	return nil
 }
 
+// ffTable is the encoding/json float formatter on every finite float (b<bits>) occurring in the value text.
+func ffTable(kind, values string) string {
+	ff := "ff:"
+	if kind != "float" && kind != "double" {
+		return ff
+	}
+	var ents []string
+	seen := map[string]bool{}
+	for _, p := range strings.FieldsFunc(values, func(r rune) bool { return r == ',' || r == '=' || r == ';' || r == 'L' || r == 'S' || r == 'M' }) {
+		if len(p) > 1 && p[0] == 'b' && !seen[p] {
+			seen[p] = true
+			n, err := strconv.ParseUint(p[1:], 10, 64)
+			if err != nil {
+				continue
+			}
+			var t []byte
+			if kind == "float" {
+				if n > math.MaxUint32 {
+					continue
+				}
+				t, _ = json.Marshal(math.Float32frombits(uint32(n)))
+			} else {
+				t, _ = json.Marshal(math.Float64frombits(n))
+			}
+			ents = append(ents, p[1:]+"="+hex.EncodeToString(t))
+		}
+	}
+	return ff + strings.Join(ents, ";")
+}
+
+// joinBodies builds the stream text of a seq payload "<sep>:<hex>,<hex>,…" (sep: n newline, s space, c nothing,
+// r CRLF, m alternating).
+func joinBodies(payload string) ([]byte, bool) {
+	i := strings.IndexByte(payload, ':')
+	if i != 1 {
+		return nil, false
+	}
+	seps := map[byte][]string{'n': {"\n"}, 's': {" "}, 'c': {""}, 'r': {"\r\n"}, 'm': {"\n", "  ", "\t\n\n", ""}}[payload[0]]
+	if seps == nil {
+		return nil, false
+	}
+	var out []byte
+	for k, h := range strings.Split(payload[2:], ",") {
+		b, err := hex.DecodeString(h)
+		if err != nil {
+			return nil, false
+		}
+		out = append(out, b...)
+		out = append(out, seps[k%len(seps)]...)
+	}
+	return out, true
+}
+
+// bindTranscoder binds a StandardTranscoder whose request and response bodies are the field fd of c09.M.
+func bindTranscoder(m *transcoding.JSONMarshaler, fd protoreflect.FieldDescriptor) (transcoding.HTTPRequestTranscoder, transcoding.HTTPResponseTranscoder, error) {
+	s := sch()
+	tr := transcoding.NewStandardTranscoder(transcoding.StandardTranscoderOpts{Marshalers: []transcoding.Marshaler{m}, DefaultMarshaler: m})
+	method := &bridgedesc.Method{RPCName: "/c09.S/M", Input: bridgedesc.DynamicMessage(s.md), Output: bridgedesc.DynamicMessage(s.md), ClientStreaming: true, ServerStreaming: true}
+	return tr.Bind(transcoding.HTTPRequest{
+		Target:     &bridgedesc.Target{Name: "t", FileResolver: s.files, TypeResolver: s.types},
+		Service:    &bridgedesc.Service{Name: "c09.S"},
+		Method:     method,
+		Binding:    &bridgedesc.Binding{HTTPMethod: "POST", Pattern: "/x", RequestBodyPath: string(fd.Name()), ResponseBodyPath: string(fd.Name())},
+		RawRequest: &http.Request{Method: "POST", Header: http.Header{}, URL: &url.URL{Path: "/x"}},
+		PathParams: map[string]string{},
+	})
+}
+
 // ---- execution --------------------------------------------------------------------------------------
 
 func lookup(card, kind, key string) protoreflect.FieldDescriptor {
@@ -498,6 +569,154 @@ func (Area) Exec(input string) string {
 			return strings.Join(l, ";")
 		}
 		return strings.Join([]string{tokenizable(text), j(trees), fpTable(kind, lc.leaves), j(results)}, " ")
+	case "seqd", "seqt":
+		// a SEQUENCE of bodies for the same field on ONE stream decoder, each into a fresh message:
+		// seqd = JSONMarshaler.NewDecoder, seqt = StandardTranscoder.Bind(...).(RequestStreamTranscoder).Stream(reader)
+		stream, ok := joinBodies(f[5])
+		if !ok {
+			return "BADSEQ"
+		}
+		var trees, raws, results, oracles []string
+		lc := &leafCollector{}
+		td := json.NewDecoder(bytes.NewReader(stream))
+		for len(trees) < 64 {
+			raw, err := firstValue(td)
+			if errors.Is(err, io.EOF) {
+				break
+			}
+			if err != nil {
+				trees = append(trees, "!")
+				raws = append(raws, "")
+				break
+			}
+			trees = append(trees, treeOf(raw, lc))
+			raws = append(raws, string(raw))
+		}
+		var decodeNext func(msg protoreflect.Message) error
+		if op == "seqd" {
+			dec := m.NewDecoder(s.types, bytes.NewReader(stream))
+			decodeNext = func(msg protoreflect.Message) error { return dec.Decode(msg, fd) }
+		} else {
+			in, _, err := bindTranscoder(m, fd)
+			if err != nil {
+				return "BINDFAIL"
+			}
+			st, ok := in.(transcoding.RequestStreamTranscoder)
+			if !ok {
+				return "NOSTREAM"
+			}
+			ts := st.Stream(bytes.NewReader(stream))
+			decodeNext = func(msg protoreflect.Message) error { return ts.Transcode(msg.Interface()) }
+		}
+		for i := 0; i < len(trees); i++ {
+			msg := dynamicpb.NewMessage(s.md)
+			eof := false
+			r := observe(func() error {
+				err := decodeNext(msg)
+				if errors.Is(err, io.EOF) {
+					eof = true
+				}
+				return err
+			}, func() string { return show(msg) })
+			if eof {
+				break
+			}
+			results = append(results, r)
+			if r == "PANIC" {
+				break
+			}
+		}
+		for i, raw := range raws {
+			if trees[i] == "!" {
+				oracles = append(oracles, "ERR")
+				continue
+			}
+			oracles = append(oracles, oracleDecode(opts, card, fd, []byte(raw), show))
+		}
+		j := func(l []string) string {
+			if len(l) == 0 {
+				return "-"
+			}
+			return strings.Join(l, ";")
+		}
+		return strings.Join([]string{tokenizable(stream), j(trees), fpTable(kind, lc.leaves), j(results), j(oracles)}, " ")
+	case "sencd", "senct":
+		// a SEQUENCE of values of the same field through ONE stream encoder; the bytes it wrote are then decoded
+		// again by ONE stream decoder
+		vals := strings.Split(f[5], ";")
+		var buf bytes.Buffer
+		var encodeNext func(msg protoreflect.Message) error
+		if op == "sencd" {
+			enc := m.NewEncoder(s.types, &buf)
+			encodeNext = func(msg protoreflect.Message) error { return enc.Encode(msg, fd) }
+		} else {
+			_, out, err := bindTranscoder(m, fd)
+			if err != nil {
+				return "BINDFAIL - - -"
+			}
+			st, ok := out.(transcoding.ResponseStreamTranscoder)
+			if !ok {
+				return "NOSTREAM - - -"
+			}
+			ts := st.Stream(&buf)
+			encodeNext = func(msg protoreflect.Message) error { return ts.Transcode(msg.Interface()) }
+		}
+		lc := &leafCollector{}
+		status := observe(func() error {
+			for _, v := range vals {
+				msg := dynamicpb.NewMessage(s.md)
+				if err := setField(msg, fd, v); err != nil {
+					panic("bad value: " + err.Error())
+				}
+				if err := encodeNext(msg); err != nil {
+					return err
+				}
+			}
+			return nil
+		}, func() string { return "OK" })
+		if status != "OK" {
+			return status + " ff: fp: -"
+		}
+		stream := buf.Bytes()
+		var trees, results []string
+		td := json.NewDecoder(bytes.NewReader(stream))
+		for len(trees) < 64 {
+			raw, err := firstValue(td)
+			if errors.Is(err, io.EOF) {
+				break
+			}
+			if err != nil {
+				trees = append(trees, "!")
+				break
+			}
+			trees = append(trees, treeOf(raw, lc))
+		}
+		dec := m.NewDecoder(s.types, bytes.NewReader(stream))
+		for len(results) < 64 {
+			msg := dynamicpb.NewMessage(s.md)
+			eof := false
+			r := observe(func() error {
+				err := dec.Decode(msg, fd)
+				if errors.Is(err, io.EOF) {
+					eof = true
+				}
+				return err
+			}, func() string { return show(msg) })
+			if eof {
+				break
+			}
+			results = append(results, r)
+			if r != "" && r[0] != 'O' {
+				break
+			}
+		}
+		j := func(l []string) string {
+			if len(l) == 0 {
+				return "-"
+			}
+			return strings.Join(l, ";")
+		}
+		return strings.Join([]string{j(trees), ffTable(kind, strings.Join(vals, ",")), fpTable(kind, lc.leaves), j(results)}, " ")
 	case "enc":
 		msg := dynamicpb.NewMessage(s.md)
 		if err := setField(msg, fd, f[5]); err != nil {
@@ -546,31 +765,7 @@ func (Area) Exec(input string) string {
 			treeOf(canonRaw, lc)
 		}
 		// float environment: the formatter on every finite float of the value, the parser on every leaf
-		ff := "ff:"
-		if kind == "float" || kind == "double" {
-			var ents []string
-			seen := map[string]bool{}
-			for _, p := range strings.FieldsFunc(f[5][1:], func(r rune) bool { return r == ',' || r == '=' }) {
-				if len(p) > 1 && p[0] == 'b' && !seen[p] {
-					seen[p] = true
-					n, err := strconv.ParseUint(p[1:], 10, 64)
-					if err != nil {
-						continue
-					}
-					var t []byte
-					if kind == "float" {
-						if n > math.MaxUint32 {
-							continue
-						}
-						t, _ = json.Marshal(math.Float32frombits(uint32(n)))
-					} else {
-						t, _ = json.Marshal(math.Float64frombits(n))
-					}
-					ents = append(ents, p[1:]+"="+hex.EncodeToString(t))
-				}
-			}
-			ff += strings.Join(ents, ";")
-		}
+		ff := ffTable(kind, f[5][1:])
 		return strings.Join([]string{tree, ff, fpTable(kind, lc.leaves), rt, cd}, " ")
 	}
 	return "BADOP"
